@@ -2,6 +2,7 @@ mod alloc_track;
 mod engine;
 mod filler;
 mod fixtures;
+mod live;
 mod props;
 mod srv;
 mod subs;
